@@ -1124,7 +1124,12 @@ class Molecules:
         if self.count() == 0:
             feat = other.features
         else:
-            feat = pl.concat([self.features, other.features], how="diagonal")
+            feat = _drop_row_placeholder(
+                pl.concat(
+                    [_features_with_rows(self), _features_with_rows(other)],
+                    how="diagonal",
+                )
+            )
             if len(feat.columns) != len(self.features.columns):
                 extra = set(other.features.columns) - set(self.features.columns)
                 raise ValueError(
